@@ -25,26 +25,28 @@ import (
 // ---------- case format ----------
 
 type Param struct {
-	K      string  `json:"k"` // single | group | obj
-	Ty     int     `json:"ty"`
-	Name   int     `json:"name"`
-	Opt    bool    `json:"opt"`
-	Group  int     `json:"group"`
-	Soft   bool    `json:"soft"`
-	Unexp  *int    `json:"unexp"` // obj: the dig.In is tagged ignore-unexported:"true" and an unexported field sits before field <unexp>
-	NS     int     `json:"ns"`    // group: consume through the declared named slice type NS<ty> (1) or NSB<ty> (2), ty < 3, instead of []T<ty>
-	Fields []Param `json:"fields"`
+	K          string  `json:"k"` // single | group | obj
+	Ty         int     `json:"ty"`
+	Name       int     `json:"name"`
+	Opt        bool    `json:"opt"`
+	Group      int     `json:"group"`
+	Soft       bool    `json:"soft"`
+	MarkerLast bool    `json:"marker_last"` // obj: dig.In is embedded AFTER the fields instead of first
+	Unexp      *int    `json:"unexp"`       // obj: the dig.In is tagged ignore-unexported:"true" and an unexported field sits before field <unexp>
+	NS         int     `json:"ns"`          // group: consume through the declared named slice type NS<ty> (1) or NSB<ty> (2), ty < 3, instead of []T<ty>
+	Fields     []Param `json:"fields"`
 }
 
 type Result struct {
-	K       string   `json:"k"` // single | group | obj
-	Ty      int      `json:"ty"`
-	Name    int      `json:"name"`
-	Group   int      `json:"group"`
-	Flatten bool     `json:"flatten"`
-	As      []int    `json:"as"`
-	NS      int      `json:"ns"` // decorator's group result: return the declared named slice type NS<ty> (1) or NSB<ty> (2), ty < 3
-	Fields  []Result `json:"fields"`
+	K          string   `json:"k"` // single | group | obj
+	Ty         int      `json:"ty"`
+	Name       int      `json:"name"`
+	Group      int      `json:"group"`
+	Flatten    bool     `json:"flatten"`
+	As         []int    `json:"as"`
+	MarkerLast bool     `json:"marker_last"` // obj: dig.Out is embedded AFTER the fields instead of first
+	NS         int      `json:"ns"`          // decorator's group result: return the declared named slice type NS<ty> (1) or NSB<ty> (2), ty < 3
+	Fields     []Result `json:"fields"`
 }
 
 type Fn struct {
@@ -335,6 +337,9 @@ func paramType(p Param) reflect.Type {
 				Tag:  reflect.StructTag(strings.Join(tags, " ")),
 			})
 		}
+		if p.MarkerLast {
+			fields = append(fields[1:], fields[0])
+		}
 		return reflect.StructOf(fields)
 	}
 	panic("bad param kind " + p.K)
@@ -370,6 +375,9 @@ func resultType(r Result, decorator bool) reflect.Type {
 				Type: resultType(f, decorator),
 				Tag:  reflect.StructTag(strings.Join(tags, " ")),
 			})
+		}
+		if r.MarkerLast {
+			fields = append(fields[1:], fields[0])
 		}
 		return reflect.StructOf(fields)
 	}
@@ -529,7 +537,7 @@ func mkResult(r Result, decorator bool, fn, exec int, lens []int, slot *int) ref
 		t := resultType(r, decorator)
 		v := reflect.New(t).Elem()
 		for i, f := range r.Fields {
-			v.Field(i + 1).Set(mkResult(f, decorator, fn, exec, lens, slot))
+			v.FieldByName(fmt.Sprintf("F%d", i)).Set(mkResult(f, decorator, fn, exec, lens, slot))
 		}
 		return v
 	}
